@@ -439,6 +439,56 @@ def run_rerun(k):
         shutil.rmtree(wd, ignore_errors=True)
 
 
+def run_huge(k):
+    """One stream larger than 2 GiB (2100 jumbo events of 1 MiB), written directly
+    (k even) or relocated from OVNI_TMPDIR (k odd).  The data is not compared byte
+    by byte: the stream must tile exactly and hold OHx, the 2100 events of that
+    size in order, OHe."""
+    chk, drv = _CTX["chk"], _CTX["drv"]
+    wd = os.path.join(chk.scratch, "huge-%d-%d" % (os.getpid(), k))
+    shutil.rmtree(wd, ignore_errors=True)
+    os.makedirs(wd)
+    out = {"i": k, "kind": "huge", "viol": None, "inconclusive": None, "events": 0, "markers": 0, "bytes": 0,
+           "feat": set(), "shortwrites": 0, "aborted_on_fault": 0}
+    n, size = 2100, 1048576
+    ops = ["ev OHx 1000 %s" % obs.i32(0, 1000, 0).hex()] + ["jumbo OB. now %d 7" % size] * n + ["ev OHe now -"]
+    script = make_script([(1000, ops)])
+    env = {"OVNI_TMPDIR": os.path.join(wd, "tmp")} if k % 2 else {}
+    try:
+        r = rt.run_script(drv, script, wd, env=env, timeout=600)
+        if r.timeout:
+            out["inconclusive"] = "driver timed out"; return out
+        if r.sanitizer:
+            out["viol"] = ("sanitizer:%s:%s" % (core.sanitizer_kind(r.err), core.first_repo_frame(r.err)),
+                           "sanitizer report while writing a 2 GiB stream", r.brief()); return out
+        if r.rc != 0 or "RTDRV-DONE" not in r.out:
+            out["viol"] = ("driver-died:huge", "library terminated a program writing a 2 GiB stream: %s"
+                           % r.err.strip().split("\n")[-1][:200], r.brief()); return out
+        sd = obs.find_streams(os.path.join(wd, "trace"))
+        if len(sd) != 1:
+            out["viol"] = ("stream-count", "found %d stream dirs for 1 thread" % len(sd), {}); return out
+        p = os.path.join(sd[0], "stream.obs")
+        out["bytes"] = os.path.getsize(p)
+        try:
+            evs = obs.decode_file_light(p)
+        except obs.DecodeError as ex:
+            out["viol"] = ("not-tiled:" + ex.msg.split("(")[0].strip() + ":huge", "2 GiB stream: %s" % ex, {}); return out
+        mine = [e for e in evs if not rt.is_flush_marker(e)]
+        ends = [e.off for e in evs[1:]] + [out["bytes"]]
+        sizes = dict((e.off, nxt - e.off) for e, nxt in zip(evs, ends))
+        shape = [(e.mcv, e.jumbo) for e in mine]
+        want = [("OHx", False)] + [("OB.", True)] * n + [("OHe", False)]
+        bad = [e for e in mine if e.jumbo and sizes[e.off] != 16 + size]
+        if shape != want or bad:
+            out["viol"] = ("stream-differs:huge", "2 GiB stream holds %d events (%d jumbo of the right size), %d were emitted"
+                           % (len(mine), sum(1 for e in mine if e.jumbo) - len(bad), n + 2), {}); return out
+        out["events"] = len(mine)
+        out["markers"] = len(evs) - len(mine)
+        return out
+    finally:
+        shutil.rmtree(wd, ignore_errors=True)
+
+
 def run_churn(k):
     """Thread churn (drivers/churndrv.c) on the ASan+UBSan build: threads that come
     and go while others start; every stream must hold exactly its own thread's
@@ -614,6 +664,16 @@ def main(argv):
             if out["viol"]:
                 key, what, obsv = out["viol"]
                 chk.report(key, what, {"churn": out["i"], "observation": obsv})
+        for out in core.pmap(run_huge, [1] if chk.tier == "quick" else [0, 1], jobs=2):
+            if out["inconclusive"]:
+                chk.note_inconclusive(out["inconclusive"]); continue
+            evaluated += 1
+            kinds[out["kind"]] = kinds.get(out["kind"], 0) + 1
+            for k in tot:
+                tot[k] += out[k]
+            if out["viol"]:
+                key, what, obsv = out["viol"]
+                chk.report(key, what, {"huge": out["i"], "observation": obsv})
         for out in core.pmap(run_rerun, list(range(8 if chk.tier == "quick" else 120))):
             if out["inconclusive"]:
                 chk.note_inconclusive(out["inconclusive"]); continue
@@ -662,7 +722,7 @@ def main(argv):
         "rule": "op scripts (boundary sweep / op soup / dense autoflush / multi-thread / short-write / EINTR / no stdin; 2-3 "
                 "processes writing into one trace directory at once with equal pids on different looms or equal tids in "
                 "different processes; every sequence of 1-3 flush-separated segments of one operation kind each (events, jumbos, "
-                "marks, nothing); a program run twice into one trace directory; rounds of threads that come and go while others start (churndrv); streams padded to an exact multiple of 512 B .. 1 MiB) run on the "
+                "marks, nothing); a stream larger than 2 GiB; a program run twice into one trace directory; rounds of threads that come and go while others start (churndrv); streams padded to an exact multiple of 512 B .. 1 MiB) run on the "
                 "ASan+UBSan libovni; a case counts when the driver finished and every stream was decoded and compared "
                 "with the emit log. distinct_nontrivial = distinct (normal|jumbo, payload size) classes seen in decoded "
                 "streams + flush-marker class + distinct boundary distances delta (MAX - fill level) generated",
